@@ -162,6 +162,65 @@ pub fn run(tier: Tier, shard: Shard, stats: &mut Stats) {
             }
         }
     }
+    // several placeholders on several template lines: every one still shows the current value
+    for tw in [20u16, 40] {
+        let catcher2 = LineCatcher::new(tw);
+        for (ti, tpl) in ["{wide_msg}\n{pos}/{len} {prefix}", "{prefix} {wide_msg}\n{human_pos}|{msg}|{len}\n{percent}% {prefix}", "{msg}\n{wide_bar} {pos}\n{prefix} {len}", "{wide_msg}\n{wide_msg}\n{pos}"].iter().enumerate() {
+            for (pos, len) in [(0u64, 10u64), (7, 10), (1234, 99999)] {
+                for msg in ["", "the message", "a message that is much longer than the terminal is wide"] {
+                    case += 1;
+                    if !shard.owns(case) {
+                        continue;
+                    }
+                    stats.evaluations += 1;
+                    stats.transitions += 1;
+                    let hist = vec![format!("template {:?}", tpl), format!("terminal width {tw}"), format!("pos {pos} len {len} message {:?}", msg)];
+                    let r = catch(|| {
+                        let pb = bar_on(&catcher2, Some(len), ProgressStyle::with_template(tpl).unwrap()).with_message(msg).with_prefix("pfx").with_position(pos);
+                        let l = frame_lines(&catcher2, &pb);
+                        pb.abandon();
+                        l
+                    });
+                    match r {
+                        Err(p) => stats.violation(Violation { class: format!("panic: {}", panic_class(&p)), config: "multi-key".into(), history: hist, detail: p }),
+                        Ok(lines) => {
+                            let w = tw as usize;
+                            let wide = |m: &str, other: usize| -> String { m.chars().take(w.saturating_sub(other)).collect::<String>().trim_end().to_string() };
+                            let pct = format!("{:.0}", (pos as f32 / len as f32).clamp(0.0, 1.0) * 100.0);
+                            let want: Vec<String> = match ti {
+                                0 => vec![wide(msg, 0), format!("{pos}/{len} pfx")],
+                                1 => vec![format!("pfx {}", wide(msg, 4)), format!("{}|{}|{}", HumanCount(pos), msg, len), format!("{pct}% pfx")],
+                                2 => vec![msg.to_string(), String::new(), format!("pfx {len}")],
+                                _ => vec![wide(msg, 0), wide(msg, 0), pos.to_string()],
+                            };
+                            let mut got = lines.clone();
+                            let mut ok = got.len() == want.len() || (ti == 2 && msg.is_empty());
+                            if ti == 2 && ok {
+                                // middle line: a bar ending in " {pos}", exactly as wide as the terminal
+                                let idx = if msg.is_empty() && got.len() == 2 { 0 } else { 1 };
+                                if !msg.is_empty() || got.len() == 3 {
+                                    ok = got[0] == msg;
+                                }
+                                let bar_line = got.get(if got.len() == 3 { 1 } else { idx }).cloned().unwrap_or_default();
+                                ok = ok && bar_line.ends_with(&format!(" {pos}")) && bar_line.chars().count() == w && got.last().map(|l| l.as_str()) == Some(want[2].as_str());
+                            } else if ok {
+                                for (g, wnt) in got.iter_mut().zip(want.iter()) {
+                                    if g.trim_end() != wnt.trim_end() {
+                                        ok = false;
+                                    }
+                                }
+                            }
+                            if !ok {
+                                stats.violation(Violation { class: "value: a placeholder in a multi-line template does not show the current value".into(), config: "multi-key".into(), history: hist, detail: format!("rendered {:?}, expected {:?}", lines, want) });
+                            } else {
+                                stats.state(hash_of(&("multi", ti, tw, pos, msg.len())), true);
+                            }
+                        }
+                    }
+                }
+            }
+        }
+    }
     // custom keys: receive the current state when written, ticked and reset together with the bar
     let mut seqs: Vec<Vec<u8>> = vec![vec![]];
     let depth = if tier == Tier::Quick { 4 } else { 6 };
